@@ -28,7 +28,7 @@ ASSUMPTIONS = [
 ]
 TIMEOUT = {"quick": 400, "thorough": 2400}
 REQUIRED = {"post:marginal_likelihood": 100, "post:loo_likelihood": 100, "post:loo_predictions": 100,
-            "loo_refits": 500, "selections": 16, "gradient_components_checked": 300, "integer_theta_cases": 20, "large_n_cases": 16, "selections:user_bounds": 16}
+            "loo_refits": 500, "selections": 16, "gradient_components_checked": 300, "integer_theta_cases": 20, "large_n_cases": 16, "selections:user_bounds": 16, "selections:change_point_limits:3plus_kernels": 2}
 
 
 def jobs(tier, seed):
@@ -302,7 +302,8 @@ def run_job(job, rec):
     def plain(name):
         return {"SE": SquaredExponential, "RQ": RationalQuadratic, "WN": WhiteNoise}[name]
 
-    layouts = [("single", ["SE"]), ("single", ["RQ"]), ("sum", ["SE", "WN"]), ("sum", ["RQ", "SE"]), ("sum", ["SE", "RQ", "WN"]), ("cp", ["SE", "RQ"]), ("cp", ["SE", "SE"])]
+    layouts = [("single", ["SE"]), ("single", ["RQ"]), ("sum", ["SE", "WN"]), ("sum", ["RQ", "SE"]), ("sum", ["SE", "RQ", "WN"]), ("cp", ["SE", "RQ"]), ("cp", ["SE", "SE"]),
+               ("cp", ["SE", "RQ", "SE"]), ("cp", ["SE", "SE", "RQ", "SE"])]
     for s in range(job.get("n_user_bounds", 3)):
         form, names = layouts[(s + job["j"]) % len(layouts)]
         opt, cv = [("bfgs", False), ("bfgs", True), ("diffev", False)][(s + job["j"] // 2) % 3]
@@ -324,15 +325,17 @@ def run_job(job, rec):
                     out = out + c_
                 return out
             if user is not None and cp_limits is not None:
-                return ChangePoint(kernels=comps, location_bounds=[cp_limits[0]], width_bounds=[cp_limits[1]])
+                return ChangePoint(kernels=comps, location_bounds=[c_[0] for c_ in cp_limits], width_bounds=[c_[1] for c_ in cp_limits])
             return ChangePoint(kernels=comps)
 
         cp_limits = None
-        if form == "cp" and rng.random() < 0.6:
+        if form == "cp" and (len(names) > 2 or rng.random() < 0.6):
             xr = float(x.min()), float(x.max())
             dx = xr[1] - xr[0]
-            a_ = xr[0] + dx * rng.uniform(0.1, 0.4)
-            cp_limits = ((a_, a_ + dx * rng.uniform(0.1, 0.4)), (dx * 0.02, dx * rng.uniform(0.05, 0.2)))
+            cp_limits = []
+            for k_ in range(len(names) - 1):     # one (location, width) pair of limits per change-point, all different
+                a_ = xr[0] + dx * (k_ + rng.uniform(0.1, 0.4)) / (len(names) - 1)
+                cp_limits.append(((a_, a_ + dx * rng.uniform(0.1, 0.4) / (len(names) - 1)), (dx * 0.02 * (k_ + 1), dx * rng.uniform(0.05, 0.2) * (k_ + 1))))
         uctx = {"user_bounds": True, "layout": form, "components": names, "bounded_component": which, "optimizer": opt, "cross_val": cv, "n": n, "change_point_limits": cp_limits}
         rec.context = uctx
         np.random.seed(int(rng.integers(2**31)))
@@ -368,14 +371,19 @@ def run_job(job, rec):
                   lambda: f"{form} of {names}: component {which} was built with hyperpar_bounds={user}; the regressor advertises {adv} for those hyper-parameters", uctx)
         if cp_limits is not None:
             # flat layout of a change-point: kernel parameters first, then (location, width)
+            # and its labels say which entry is which: '... location' / '... width' of change-point k
             k0 = nm_par + sum(sizes)
-            adv_cp = [tuple(float(v) for v in b) for b in g1.hp_bounds[k0:k0 + 2]]
-            sel_cp = np.asarray(g1.hyperpars, float)[k0:k0 + 2]
+            m_ = 2 * (len(names) - 1)
+            flat_limits = [b_ for c_ in cp_limits for b_ in c_]           # (loc0, width0, loc1, width1, ...): the order of the hyper-parameters
+            adv_cp = [tuple(float(v) for v in b) for b in g1.hp_bounds[k0:k0 + m_]]
+            sel_cp = np.asarray(g1.hyperpars, float)[k0:k0 + m_]
             rec.count("selections:change_point_limits")
-            rec.check(all(abs(a_[0] - u_[0]) <= 1e-12 * (1 + abs(u_[0])) and abs(a_[1] - u_[1]) <= 1e-12 * (1 + abs(u_[1])) for a_, u_ in zip(adv_cp, cp_limits)), "user-bounds-not-advertised",
-                      lambda: f"change-point built with location_bounds={cp_limits[0]}, width_bounds={cp_limits[1]}; the regressor advertises {adv_cp}", uctx)
-            rec.check(all(u_[0] - 1e-9 * (u_[1] - u_[0]) <= v_ <= u_[1] + 1e-9 * (u_[1] - u_[0]) for v_, u_ in zip(sel_cp, cp_limits)), "selected-outside-bounds",
-                      lambda: f"change-point built with location_bounds={cp_limits[0]}, width_bounds={cp_limits[1]}; selected location / width {sel_cp}", uctx)
+            if len(names) > 2:
+                rec.count("selections:change_point_limits:3plus_kernels")
+            rec.check(all(abs(a_[0] - u_[0]) <= 1e-12 * (1 + abs(u_[0])) and abs(a_[1] - u_[1]) <= 1e-12 * (1 + abs(u_[1])) for a_, u_ in zip(adv_cp, flat_limits)), "user-bounds-not-advertised",
+                      lambda: f"change-point of {names} built with (location, width) limits {cp_limits}; the regressor advertises {adv_cp} for (loc0, width0, loc1, ...)", uctx)
+            rec.check(all(u_[0] - 1e-9 * (u_[1] - u_[0]) <= v_ <= u_[1] + 1e-9 * (u_[1] - u_[0]) for v_, u_ in zip(sel_cp, flat_limits)), "selected-outside-bounds",
+                      lambda: f"change-point of {names} built with (location, width) limits {cp_limits}; selected (loc0, width0, loc1, ...) = {sel_cp}", uctx)
         sel = np.asarray(g1.hyperpars, float)[a0:a0 + sizes[which]]
         inside = all(u_[0] - 1e-9 * (u_[1] - u_[0]) <= v_ <= u_[1] + 1e-9 * (u_[1] - u_[0]) for v_, u_ in zip(sel, user))
         rec.check(inside, "selected-outside-bounds",
